@@ -87,4 +87,49 @@ TiffDecode(enc, colors, rowlen) ==
                                 <<>>, [i \in 1..Len(row) |-> i])
     IN IF rowlen < 1 \/ colors < 1 THEN Fail(<<>>)
        ELSE Good(FoldLeft(LAMBDA acc, row : acc \o decRow(row), <<>>, Rows(enc, rowlen)))
+
+-----------------------------------------------------------------------------
+(* TIFF predictor 2 for every component width (ISO 32000-1 7.4.4.4, TIFF 6.0 section 14): BitsPerComponent 1, 2, 4, *)
+(* 8 or 16.  A row holds Columns * Colors components packed most significant bits first (16 bit: big endian) and is  *)
+(* padded to a whole number of bytes, rowlen = ceil(Columns * Colors * bpc / 8); arithmetic is modulo 2^bpc per      *)
+(* component.  The padding bits of a row, and the bytes of a short last row that do not make a whole component,      *)
+(* are not components: they pass through unchanged.                                                                 *)
+
+LOCAL Pw2(k) == 2 ^ k
+TiffRowLen(colors, bpc, columns) == (columns * colors * bpc + 7) \div 8
+
+\* the components of a (possibly short) row, and the row with its components replaced
+LOCAL NComp(row, colors, bpc, columns) ==
+    LET whole == IF bpc = 16 THEN Len(row) \div 2 ELSE Len(row) * (8 \div bpc)
+    IN IF columns * colors < whole THEN columns * colors ELSE whole
+LOCAL Comp(row, bpc, i) ==                                    \* i-th component, 1-based
+    IF bpc = 16 THEN row[2 * i - 1] * 256 + row[2 * i]
+    ELSE IF bpc = 8 THEN row[i]
+    ELSE LET per == 8 \div bpc  b == row[(i - 1) \div per + 1]  sh == 8 - bpc * (((i - 1) % per) + 1)
+         IN (b \div Pw2(sh)) % Pw2(bpc)
+LOCAL WithComps(row, bpc, cs) ==                              \* cs = new values of the first Len(cs) components
+    IF bpc = 16 THEN [k \in 1..Len(row) |-> IF (k + 1) \div 2 <= Len(cs)
+                                             THEN (IF k % 2 = 1 THEN cs[(k + 1) \div 2] \div 256 ELSE cs[k \div 2] % 256) ELSE row[k]]
+    ELSE IF bpc = 8 THEN [k \in 1..Len(row) |-> IF k <= Len(cs) THEN cs[k] ELSE row[k]]
+    ELSE LET per == 8 \div bpc
+             slot(k, j) == (k - 1) * per + j                  \* component index of slot j (1..per) of byte k
+             val(k, j) == IF slot(k, j) <= Len(cs) THEN cs[slot(k, j)]
+                          ELSE (row[k] \div Pw2(8 - bpc * j)) % Pw2(bpc)
+         IN [k \in 1..Len(row) |-> FoldLeft(LAMBDA acc, j : acc * Pw2(bpc) + val(k, j), 0, [j \in 1..per |-> j])]
+
+TiffEncodeB(data, colors, bpc, columns) ==
+    LET L == TiffRowLen(colors, bpc, columns)
+        encRow(row) == LET n == NComp(row, colors, bpc, columns)
+                       IN WithComps(row, bpc, [i \in 1..n |-> IF i <= colors THEN Comp(row, bpc, i)
+                                                               ELSE (Comp(row, bpc, i) + Pw2(bpc) - Comp(row, bpc, i - colors)) % Pw2(bpc)])
+    IN FoldLeft(LAMBDA acc, row : acc \o encRow(row), <<>>, Rows(data, L))
+
+TiffDecodeB(enc, colors, bpc, columns) ==
+    LET L == TiffRowLen(colors, bpc, columns)
+        decRow(row) == LET n == NComp(row, colors, bpc, columns)
+                       IN WithComps(row, bpc, FoldLeft(LAMBDA acc, i : Append(acc, IF i <= colors THEN Comp(row, bpc, i)
+                                                                                    ELSE (Comp(row, bpc, i) + acc[i - colors]) % Pw2(bpc)),
+                                                       <<>>, [i \in 1..n |-> i]))
+    IN IF colors < 1 \/ columns < 1 \/ bpc \notin {1, 2, 4, 8, 16} THEN Fail(<<>>)
+       ELSE Good(FoldLeft(LAMBDA acc, row : acc \o decRow(row), <<>>, Rows(enc, L)))
 =============================================================================
